@@ -40,8 +40,10 @@ def plan(tier, seed):
     for nside, kind, lay in itertools.product(nsides, ['I', 'QU', 'IQU', 'IQUV'], LAYOUTS):
         if tier == 'quick' and (nsides.index(nside) + list(LAYOUTS).index(lay) + len(kind)) % 2:
             continue
-        for samp in ('grid', 'perm', 'single'):
+        for samp in ('grid', 'perm', 'single', 'square'):
             if samp != 'grid' and (tier == 'quick' and lay not in ('two', 'two_dirs', 'spread6')):
+                continue
+            if samp == 'square' and lay in ('bore', 'one_off', 'one_two_dirs'):
                 continue
             cases.append({'nside': nside, 'kind': kind, 'lay': lay, 'samp': samp})
     return [
@@ -119,6 +121,8 @@ def run(phase, cases, ctx):
             pts = grid
         elif case['samp'] == 'perm':
             pts = [grid[(i * 37) % len(grid)] for i in range(0, len(grid), 5)]
+        elif case['samp'] == 'square':   # number of samples == number of detectors (filled up after border filtering)
+            pts = [grid[(i * 53 + 7) % len(grid)] for i in range(4 * len(xs))]
         else:
             pts = [grid[100]]
         th = np.array([p[0] for p in pts])
@@ -129,6 +133,10 @@ def run(phase, cases, ctx):
         pix, safe = reference_pixels(nside, dirs, th, ph, ps)
         counters['samples_removed_near_border'] += int((~safe).sum())
         th, ph, ps, pix = th[safe], ph[safe], ps[safe], pix[:, :, safe]
+        if case['samp'] == 'square':
+            th, ph, ps, pix = th[: len(xs)], ph[: len(xs)], ps[: len(xs)], pix[:, :, : len(xs)]
+            if len(th) != len(xs):
+                continue
         if len(th) == 0:
             continue
         ndet, ndir, ns = pix.shape
